@@ -15,6 +15,7 @@ from vt.checks.c01 import cancellation_bound
 
 PROPERTY = "C03"
 TITLE = "Propagation: passive, delayed by tof, transverse polarization"
+TECHNIQUE = ('runtime monitoring: recorded propagate/attenuation/fresnel calls decided by an independent FFT reference filter, an ODE attenuation integral, textbook Fresnel coefficients and an energy bound; the same path object re-asked with another interpolation setting')
 ANCHORS = ["pyrex.ray_tracing:BasicRayTracePath.attenuation", "pyrex.ray_tracing:SpecializedRayTracePath.attenuation", "pyrex.ray_tracing:UniformRayTracePath.attenuation",
            "pyrex.ray_tracing:BasicRayTracePath.fresnel", "pyrex.ray_tracing:UniformRayTracePath.fresnel", "pyrex.custom.layered_ice.ray_tracing:LayeredRayTracePath.fresnel",
            "pyrex.ray_tracing:BasicRayTracePath.propagate", "pyrex.ray_tracing:UniformRayTracePath.propagate",
